@@ -33,9 +33,11 @@ import (
 	"go.opentelemetry.io/collector/confmap"
 	"go.opentelemetry.io/collector/confmap/xconfmap"
 	"go.opentelemetry.io/collector/consumer/consumertest"
+	"go.opentelemetry.io/collector/exporter"
 	"go.opentelemetry.io/collector/exporter/exportertest"
 	"go.opentelemetry.io/collector/exporter/otlpexporter"
 	"go.opentelemetry.io/collector/exporter/otlphttpexporter"
+	"go.opentelemetry.io/collector/receiver"
 	"go.opentelemetry.io/collector/receiver/otlpreceiver"
 	"go.opentelemetry.io/collector/receiver/receivertest"
 	"go.opentelemetry.io/collector/verifharness/vt"
@@ -59,13 +61,16 @@ import (
 //
 // UseScript: Wrap names the enclosing shape, Kind how the slots are filled.
 type UseScript struct {
-	Real  string     `json:"real"`
-	Hdrs  int        `json:"hdrs"`
-	Wrap  string     `json:"wrap"` // value | ptr | struct | ptr-struct | slice
-	S1    [][]byte   `json:"s1"`
-	S2    [][]byte   `json:"s2"`
-	Ops   []string   `json:"ops"` // subset of useOps, executed in the order of useOps
-	Paths []PathSpec `json:"paths"`
+	Real string `json:"real"`
+	Hdrs int    `json:"hdrs"`
+	// HdrNames[j] names the j-th entry of every header map (default h<j>):
+	// the names the code special-cases (Host …) next to arbitrary ones
+	HdrNames []string   `json:"hdr_names,omitempty"`
+	Wrap     string     `json:"wrap"` // value | ptr | struct | ptr-struct | slice
+	S1       [][]byte   `json:"s1"`
+	S2       [][]byte   `json:"s2"`
+	Ops      []string   `json:"ops"` // subset of useOps, executed in the order of useOps
+	Paths    []PathSpec `json:"paths"`
 }
 
 var useOps = []string{"validate", "xvalidate", "use", "unmarshal-invalid"}
@@ -131,6 +136,62 @@ func target() *httptest.Server {
 	return targetServer
 }
 
+// ---- observed logger ----
+
+// Every entry point that takes component.TelemetrySettings / Settings gets a
+// logger at Debug level whose entries are encoded twice (JSON and console
+// encoder) into logSink; whatever an entry point logs is attributed to it and
+// searched for sentinels.
+type sinkT struct {
+	mu  sync.Mutex
+	buf bytes.Buffer
+}
+
+func (s *sinkT) Write(p []byte) (int, error) {
+	s.mu.Lock()
+	defer s.mu.Unlock()
+	return s.buf.Write(p)
+}
+func (s *sinkT) Sync() error { return nil }
+func (s *sinkT) take() string {
+	s.mu.Lock()
+	defer s.mu.Unlock()
+	t := s.buf.String()
+	s.buf.Reset()
+	return t
+}
+
+var (
+	logSink   = &sinkT{}
+	obsLogger = zap.New(zapcore.NewTee(
+		zapcore.NewCore(zapcore.NewJSONEncoder(zap.NewProductionEncoderConfig()), logSink, zapcore.DebugLevel),
+		zapcore.NewCore(zapcore.NewConsoleEncoder(zap.NewDevelopmentEncoderConfig()), logSink, zapcore.DebugLevel)))
+	curLogs *[]opLog // where guard books what was logged (set by runOps)
+)
+
+type opLog struct{ op, text string }
+
+func obsTel() component.TelemetrySettings {
+	t := componenttest.NewNopTelemetrySettings()
+	t.Logger = obsLogger
+	return t
+}
+
+func obsExporterSettings(typ component.Type) exporter.Settings {
+	set := exportertest.NewNopSettings(typ)
+	set.TelemetrySettings.Logger = obsLogger
+	return set
+}
+
+func obsReceiverSettings(typ component.Type) receiver.Settings {
+	set := receivertest.NewNopSettings(typ)
+	set.TelemetrySettings.Logger = obsLogger
+	return set
+}
+
+// headerNames: names that HTTP/gRPC code special-cases, and ordinary ones.
+var headerNames = []string{"Host", "Authorization", "Content-Type", "User-Agent", "Cookie", "Proxy-Authorization", "X-Api-Key", "x-scope-orgid", "Accept-Encoding", "Content-Encoding", "Te", "Connection", "grpc-timeout", "h0", "h1", "h2"}
+
 // ---- the use entry points ----
 
 type opErr struct {
@@ -172,8 +233,12 @@ func prepare(p any) {
 
 func guard(op string, errs *[]opErr, fn func() error) {
 	var err error
+	logSink.take()
 	if p, _ := vt.Recover(func() { err = fn() }); p != nil {
 		err = fmt.Errorf("panic: %v", p)
+	}
+	if txt := logSink.take(); txt != "" && curLogs != nil {
+		*curLogs = append(*curLogs, opLog{op, txt})
 	}
 	if err != nil {
 		*errs = append(*errs, opErr{op, err})
@@ -182,7 +247,7 @@ func guard(op string, errs *[]opErr, fn func() error) {
 
 func useHTTPClient(c *confighttp.ClientConfig, errs *[]opErr, dv *[]deliv) {
 	guard("ToClient", errs, func() error {
-		cl, err := c.ToClient(context.Background(), nopHost, componenttest.NewNopTelemetrySettings())
+		cl, err := c.ToClient(context.Background(), nopHost, obsTel())
 		if err != nil {
 			return err
 		}
@@ -202,7 +267,7 @@ func useHTTPServer(c *confighttp.ServerConfig, errs *[]opErr, dv *[]deliv) {
 		return ln.Close()
 	})
 	guard("ToServer", errs, func() error {
-		srv, err := c.ToServer(context.Background(), nopHost, componenttest.NewNopTelemetrySettings(), http.HandlerFunc(func(w http.ResponseWriter, _ *http.Request) { w.WriteHeader(200) }))
+		srv, err := c.ToServer(context.Background(), nopHost, obsTel(), http.HandlerFunc(func(w http.ResponseWriter, _ *http.Request) { w.WriteHeader(200) }))
 		if err != nil {
 			return err
 		}
@@ -215,7 +280,7 @@ func useHTTPServer(c *confighttp.ServerConfig, errs *[]opErr, dv *[]deliv) {
 
 func useGRPCClient(c *configgrpc.ClientConfig, errs *[]opErr, dv *[]deliv) {
 	guard("ToClientConn", errs, func() error {
-		conn, err := c.ToClientConn(context.Background(), nopHost, componenttest.NewNopTelemetrySettings())
+		conn, err := c.ToClientConn(context.Background(), nopHost, obsTel())
 		if err != nil {
 			return err
 		}
@@ -228,7 +293,7 @@ func useGRPCClient(c *configgrpc.ClientConfig, errs *[]opErr, dv *[]deliv) {
 
 func useGRPCServer(c *configgrpc.ServerConfig, errs *[]opErr) {
 	guard("ToServer", errs, func() error {
-		srv, err := c.ToServer(context.Background(), nopHost, componenttest.NewNopTelemetrySettings())
+		srv, err := c.ToServer(context.Background(), nopHost, obsTel())
 		if err != nil {
 			return err
 		}
@@ -255,8 +320,10 @@ func startStop(op string, errs *[]opErr, create func() (startStopper, error)) {
 
 // runOps calls the selected public entry points on the real config object p
 // (pointer to the struct) and returns every error they produced.
-func runOps(name string, p any, hdrs int, sec [][]byte, ops []string, dv *[]deliv) []opErr {
+func runOps(name string, p any, hdrs int, sec [][]byte, ops []string, dv *[]deliv, logs *[]opLog) []opErr {
 	var errs []opErr
+	curLogs = logs
+	defer func() { curLogs = nil }()
 	prepare(p)
 	has := func(op string) bool {
 		for _, o := range ops {
@@ -309,7 +376,7 @@ func runOps(name string, p any, hdrs int, sec [][]byte, ops []string, dv *[]deli
 		case *otlphttpexporter.Config:
 			f := otlphttpexporter.NewFactory()
 			guard("otlphttpexporter create+Start+Consume+Shutdown", &errs, func() error {
-				exp, err := f.CreateLogs(context.Background(), exportertest.NewNopSettings(f.Type()), c)
+				exp, err := f.CreateLogs(context.Background(), obsExporterSettings(f.Type()), c)
 				if err != nil {
 					return fmt.Errorf("create: %w", err)
 				}
@@ -332,7 +399,7 @@ func runOps(name string, p any, hdrs int, sec [][]byte, ops []string, dv *[]deli
 					c.ClientConfig.Endpoint, c.ClientConfig.TLSSetting.Insecure = wireServer(), true
 					defer func() { c.ClientConfig.Endpoint, c.ClientConfig.TLSSetting.Insecure = oldEP, oldIns }()
 				}
-				exp, err := f.CreateTraces(context.Background(), exportertest.NewNopSettings(f.Type()), c)
+				exp, err := f.CreateTraces(context.Background(), obsExporterSettings(f.Type()), c)
 				if err != nil {
 					return fmt.Errorf("create: %w", err)
 				}
@@ -353,7 +420,7 @@ func runOps(name string, p any, hdrs int, sec [][]byte, ops []string, dv *[]deli
 		case *otlpreceiver.Config:
 			f := otlpreceiver.NewFactory()
 			startStop("otlpreceiver create+Start+Shutdown", &errs, func() (startStopper, error) {
-				return f.CreateLogs(context.Background(), receivertest.NewNopSettings(f.Type()), c, consumertest.NewNop())
+				return f.CreateLogs(context.Background(), obsReceiverSettings(f.Type()), c, consumertest.NewNop())
 			})
 		}
 	}
@@ -456,8 +523,19 @@ type useVerdict struct {
 }
 
 func (s *UseScript) valid() bool {
-	if _, ok := realByName[s.Real]; !ok || s.Hdrs < 0 || s.Hdrs > 8 || len(s.Paths) == 0 {
+	if _, ok := realByName[s.Real]; !ok || s.Hdrs < 0 || s.Hdrs > 8 || len(s.Paths) == 0 || len(s.HdrNames) > s.Hdrs {
 		return false
+	}
+	seen := map[string]bool{}
+	for j := 0; j < s.Hdrs; j++ { // distinct also after HTTP/gRPC canonicalisation
+		n := fmt.Sprintf("h%d", j)
+		if j < len(s.HdrNames) {
+			n = s.HdrNames[j]
+		}
+		if n == "" || seen[strings.ToLower(n)] {
+			return false
+		}
+		seen[strings.ToLower(n)] = true
 	}
 	ok := true
 	if p, _ := vt.Recover(func() { ok = validSecrets(s.S1, s.S2, slots(s.shape())) }); p != nil {
@@ -494,7 +572,9 @@ func evalUse(c *vt.C, s *UseScript) *useVerdict {
 	// before the use: a fresh, unused object shows only the marker (the full
 	// oracle for unused objects is the sweep/compose checks' business)
 	{
-		v0 := newBuilder().instantiate(shape, s.S1).Interface()
+		b0 := newBuilder()
+		b0.hdrNames = s.HdrNames
+		v0 := b0.instantiate(shape, s.S1).Interface()
 		for i := range s.Paths {
 			p := s.Paths[i]
 			if p.K == "xml" && si.xmlIfaceText {
@@ -520,13 +600,15 @@ func evalUse(c *vt.C, s *UseScript) *useVerdict {
 	b := newBuilder()
 	var errs []opErr
 	var dv []deliv
+	var logs []opLog
 	var cur [][]byte
+	b.hdrNames = s.HdrNames
 	b.afterFill = func(n *Node, p reflect.Value) {
-		errs = append(errs, runOps(n.Real, p.Interface(), n.N, cur, s.Ops, &dv)...)
+		errs = append(errs, runOps(n.Real, p.Interface(), n.N, cur, s.Ops, &dv, &logs)...)
 	}
 	var outs [2][][]out
 	for a, sec := range [][][]byte{s.S1, s.S2} {
-		errs, dv, cur = nil, nil, sec
+		errs, dv, logs, cur = nil, nil, nil, sec
 		v := b.instantiate(shape, sec).Interface()
 		// (0) delivery: the peer received the configured secrets
 		for k, n := range delivChecked {
@@ -546,6 +628,17 @@ func evalUse(c *vt.C, s *UseScript) *useVerdict {
 						if n.text != "" && strings.Contains(o.text, n.text) {
 							return fail(nil, "error-text/"+s.Real+"/"+e.op, "the error returned by %s shows the %s form of a secret (%s): %s", e.op, n.form, o.label, excerpt(o.text))
 						}
+					}
+				}
+			}
+		}
+		// (1b) what the entry points wrote to the collector log
+		for _, l := range logs {
+			c.Class("logged:" + s.Real + "/" + l.op)
+			for k := 0; k <= a; k++ {
+				for _, n := range nd[k] {
+					if n.text != "" && strings.Contains(l.text, n.text) {
+						return fail(nil, "log/"+s.Real+"/"+l.op, "%s wrote the %s form of a secret to the log: %s", l.op, n.form, excerpt(l.text))
 					}
 				}
 			}
@@ -739,6 +832,10 @@ var useWraps = []string{"value", "ptr", "struct", "ptr-struct", "slice"}
 
 func genUse(t *rapid.T) UseScript {
 	s := UseScript{Real: rapid.SampledFrom(useReals).Draw(t, "real"), Hdrs: rapid.IntRange(0, 3).Draw(t, "hdrs"), Wrap: rapid.SampledFrom(useWraps).Draw(t, "wrap")}
+	if rapid.IntRange(0, 3).Draw(t, "named") != 0 {
+		perm := rapid.Permutation(headerNames).Draw(t, "names")
+		s.HdrNames = perm[:s.Hdrs]
+	}
 	s.S1, s.S2 = useSecrets(t, s.shape(), rapid.SampledFrom(useKinds).Draw(t, "kind"))
 	for _, op := range useOps {
 		if rapid.IntRange(0, 3).Draw(t, "op") != 0 {
@@ -788,6 +885,9 @@ func TestUseSweep(t *testing.T) {
 					continue
 				}
 				s := UseScript{Real: real, Hdrs: 2, Wrap: wr, Ops: useOps, Paths: full}
+				if idx%5 != 4 { // 4 of 5 scripts use special-cased header names, Host first
+					s.HdrNames = []string{headerNames[(idx/5)%4], headerNames[4+idx%9]}
+				}
 				// fixed example stream: the sweep does not depend on VT_SEED
 				s.S1, s.S2 = useSecretsDet(s.shape(), kind, idx)
 				if !s.valid() {
